@@ -35,6 +35,8 @@ func (s ESeq) String() string {
 		switch o.Kind {
 		case "sub":
 			b.WriteString("sub ")
+		case "subblock":
+			b.WriteString("sub(blocks) ")
 		case "unsub":
 			fmt.Fprintf(&b, "unsub(#%d) ", o.Which)
 		case "fire":
@@ -63,12 +65,15 @@ func (l *listener) snapshot() []int {
 }
 
 var subEvent = ev.Register("event-listeners",
-	"sequences of subscribe / unsubscribe (any live listener, each remover called once, any order) / fire / back-to-back burst of 2-50 fires on one event.Event[int] with up to 8 listeners; model = set of live listeners with the value range each must see; oracle after quiescence (bounded wait): no panic; every listener received every value fired while it was subscribed exactly once and nothing fired after its unsubscribe returned; the last value a live listener applied is the last value fired; non-trivial = >= 2 listeners with a non-LIFO unsubscribe, or a burst; distinct by operation sequence",
+	"sequences of subscribe (some listeners block inside their callback until the end of the case) / unsubscribe (any live listener, each remover called once, any order) / fire / back-to-back burst of 2-50 fires on one event.Event[int] with up to 8 listeners; model = set of live listeners with the value range each must see; oracle after quiescence (bounded wait): no panic; every listener received every value fired while it was subscribed exactly once and nothing fired after its unsubscribe returned; the last value a live listener applied is the last value fired; non-trivial = >= 2 listeners with a non-LIFO unsubscribe, or a burst; distinct by operation sequence",
 	func(s ESeq, o *ev.Obs) *ev.Failure {
 		if s.Procs > 0 {
 			defer runtime.GOMAXPROCS(runtime.GOMAXPROCS(s.Procs))
 		}
 		e := event.New[int]()
+		releaseAll := make(chan struct{})
+		defer close(releaseAll)
+		blockers := 0
 		var ls []*listener
 		fired := 0
 		nonLIFO, burst := false, false
@@ -77,15 +82,23 @@ var subEvent = ev.Register("event-listeners",
 			defer func() { pan = recover() }()
 			for _, op := range s.Ops {
 				switch op.Kind {
-				case "sub":
+				case "sub", "subblock":
 					if len(ls) >= 8 {
 						continue
 					}
 					l := &listener{id: len(ls), live: true, subAt: fired + 1, unsubAt: -1}
+					blocks := op.Kind == "subblock"
+					if blocks {
+						blockers++
+					}
 					l.remove = e.Subscribe(func(v int) {
 						l.mu.Lock()
 						l.got = append(l.got, v)
 						l.mu.Unlock()
+						if blocks {
+							// a component that is slow to take a change in (or stuck): the others must not wait for it
+							<-releaseAll
+						}
 					})
 					ls = append(ls, l)
 				case "unsub":
@@ -120,6 +133,7 @@ var subEvent = ev.Register("event-listeners",
 		o.Classf("listeners:%d", len(ls))
 		o.Classf("non-lifo-unsubscribe:%v", nonLIFO)
 		o.Classf("burst:%v", burst)
+		o.Classf("blocked-listener:%v", blockers > 0)
 		o.NonTrivial = (len(ls) >= 2 && nonLIFO) || burst
 		if pan != nil {
 			return ev.Failf("event.unsubscribe-panic", "%s:: panic: %v", s, pan)
@@ -203,7 +217,11 @@ func drawESeq(t *rapid.T) ESeq {
 	for i := rapid.IntRange(2, 24).Draw(t, "n"); i > 0; i-- {
 		switch rapid.IntRange(0, 9).Draw(t, "op") {
 		case 0, 1, 2:
-			s.Ops = append(s.Ops, EOp{Kind: "sub"})
+			kind := "sub"
+			if rapid.IntRange(0, 4).Draw(t, "blocks") == 0 {
+				kind = "subblock"
+			}
+			s.Ops = append(s.Ops, EOp{Kind: kind})
 		case 3, 4:
 			s.Ops = append(s.Ops, EOp{Kind: "unsub", Which: rapid.IntRange(0, 7).Draw(t, "which")})
 		case 5, 6, 7:
